@@ -8,7 +8,8 @@ import sys
 import tempfile
 
 
-def run_suite(ctx, tests, domains, rounds=1, timeout=1500, extra_env=None):
+def run_suite(ctx, tests, domains, rounds=1, timeout=2400, extra_env=None,
+              oob=False):
     """Run `tests` (paths relative to the repository) `rounds` times under
     the suite plugin; merge counters, forward violations to `ctx`."""
     repo = os.environ.get("VERIF_REPO", "/repo")
@@ -51,6 +52,16 @@ def run_suite(ctx, tests, domains, rounds=1, timeout=1500, extra_env=None):
             ctx.inconclusive_because("suite plugin could not install its "
                                      "monitors: " + e[-500:])
         for e in st["errors"]:
+            if oob and "IndexError" in e and "moptipyapps" in e:
+                # bounds-checked engine: a kernel indexed outside an array
+                # while one of the repository's own tests drove it
+                test = e.split(": ", 1)[0][:80]
+                ctx.violation("out-of-bounds:suite:" + test,
+                              f"IndexError under NUMBA_BOUNDSCHECK=1 while "
+                              f"the repository's own test {test} ran: "
+                              + e[-700:],
+                              ctx.shard_replay_case(test=test))
+                continue
             # a failing repository test is not this property's verdict
             ctx.count("suite_tests_failed_or_plugin_errors")
             ctx.note("suite: " + e[-400:])
